@@ -38,6 +38,13 @@ class Poly(Problem):
         hi = np.array([fv(ROWS[k][1]) for k in kinds])
         super().__init__(np.array([fv(v) for v in D["lx"]]), np.array([fv(v) for v in D["ux"]]), cons_lb=lo, cons_ub=hi)
 
+    def _fmt(self):
+        # "alt": a callback may return a different sparse format (hence another entry order) at every point
+        if self.fmt != "alt":
+            return self.fmt
+        self._nf = getattr(self, "_nf", 0) + 1
+        return ("csc", "csr", "coo")[self._nf % 3]
+
     def obj(self, x):
         D = self.D
         return 0.5 * (D["q"][0] * x[0] ** 2 + D["q"][1] * x[1] ** 2) + D["r"] * x[0] * x[1] + D["p"][0] * x[0] + D["p"][1] * x[1]
@@ -55,7 +62,7 @@ class Poly(Problem):
         key = ("J", x.tobytes())
         if key not in self.cache:
             J = np.array([[D["A"][i][0] + D["d"][i] * x[0], D["A"][i][1]] for i in range(2)], dtype=float)
-            self.cache[key] = sps.coo_matrix(J.astype(self.mdtype)).asformat(self.fmt)
+            self.cache[key] = sps.coo_matrix(J.astype(self.mdtype)).asformat(self._fmt())
         return self.cache[key]
 
     def lag_hess(self, x, y):
@@ -63,7 +70,7 @@ class Poly(Problem):
         key = ("H", x.tobytes(), y.tobytes())
         if key not in self.cache:
             H = np.array([[D["q"][0] + y[0] * D["d"][0] + y[1] * D["d"][1], D["r"]], [D["r"], D["q"][1]]], dtype=float)
-            self.cache[key] = sps.coo_matrix(H.astype(self.mdtype)).asformat(self.fmt)
+            self.cache[key] = sps.coo_matrix(H.astype(self.mdtype)).asformat(self._fmt())
         return self.cache[key]
 
 
@@ -137,13 +144,24 @@ def replay(c, out, fmt, int_dtype=False):
     exp_d = np.ldexp(dt[:2], np.array(c["vw"]) - c["ow"])
     if not same(rx, x0) or not same(ry, y0) or not same(rd, exp_d):
         errs.append("restore")
+    # the internal functions are functions of the point: at a second point (where entries of the user's Jacobian vanish, so the
+    # stored pattern changes) the used transformation answers like a fresh one
+    x2 = np.array([-0.5, 1.0]) if c["dat"] == 1 else np.array([2.0, 0.0])
+    it2 = tr.create_transformed_iterate(x2, y0)
+    fresh = Transformation(Poly(c["dat"], c["kinds"], fmt, int_dtype), params)
+    if not same(ev.cons_jac(it2.x).toarray(), fresh.evaluator.cons_jac(it2.x).toarray()):
+        errs.append("jac.second_point")
+    if not same(ev.lag_hess(it2.x, it2.y).toarray(), fresh.evaluator.lag_hess(it2.x, it2.y).toarray()):
+        errs.append("hess.second_point")
+    if not same(ev.cons(it2.x), fresh.evaluator.cons(it2.x)) or not same(ev.obj_grad(it2.x), fresh.evaluator.obj_grad(it2.x)):
+        errs.append("values.second_point")
     return errs
 
 
 def _job(args):
     si, c, out = args
     try:
-        return si, replay(c, out, ("coo", "csr", "csc")[si % 3], int_dtype=(si % 5 == 0))
+        return si, replay(c, out, "alt" if si % 7 == 3 else ("coo", "csr", "csc")[si % 3], int_dtype=(si % 5 == 0))
     except Exception as e:  # noqa
         return si, ["exception:" + type(e).__name__]
 
